@@ -381,7 +381,9 @@ func isSyncType(t types.Type) (mutex bool, atomic bool, other bool) {
 	return
 }
 
-// targetField reports whether sel selects a field of an anchored struct; returns "Struct.field".
+// targetField reports whether sel selects a field of a struct defined in the library; returns
+// "Struct.field" for the anchored structs and "pkg.Struct.field" for the others. Accesses to
+// non-anchored fields are kept only when a background goroutine touches the field (see emit).
 func (a *analyzer) targetField(info *types.Info, sel *ast.SelectorExpr) (string, *types.Var, bool) {
 	s, ok := info.Selections[sel]
 	if !ok || s.Kind() != types.FieldVal {
@@ -395,24 +397,31 @@ func (a *analyzer) targetField(info *types.Info, sel *ast.SelectorExpr) (string,
 	if n == nil || n.Obj().Pkg() == nil {
 		return "", nil, false
 	}
-	full := n.Obj().Pkg().Path() + "." + n.Obj().Name()
-	fields, ok := targets[full]
-	if !ok {
+	if _, isStruct := n.Underlying().(*types.Struct); !isStruct {
 		return "", nil, false
 	}
-	if fields != nil {
-		hit := false
+	pp := n.Obj().Pkg().Path()
+	if pp != modPath && !strings.HasPrefix(pp, modPath+"/") {
+		return "", nil, false
+	}
+	full := pp + "." + n.Obj().Name()
+	fields, ok := targets[full]
+	anch := ok
+	if ok && fields != nil {
+		anch = false
 		for _, f := range fields {
 			if f == v.Name() {
-				hit = true
+				anch = true
 			}
 		}
-		if !hit {
-			return "", nil, false
-		}
 	}
-	return n.Obj().Name() + "." + v.Name(), v, true
+	if anch {
+		return n.Obj().Name() + "." + v.Name(), v, true
+	}
+	return shortPkg(pp) + "." + n.Obj().Name() + "." + v.Name(), v, true
 }
+
+func isAnchoredLoc(loc string) bool { return strings.Count(loc, ".") == 1 }
 
 // ------------------------------------------------------------------ per-function analysis
 
@@ -435,7 +444,68 @@ func (a *analyzer) analyze(f *fn) {
 	w.block(f.body.List, ls)
 }
 
+// sharedPath: can the storage selected through e be reached by another goroutine? False only when the
+// path stays inside a local struct VALUE (a copy: `statsCopy.CurrentMode = ...`, a by-value parameter).
+func (w *walker) sharedPath(e ast.Expr) bool {
+	for {
+		tv, ok := w.info.Types[e]
+		if ok {
+			if _, isPtr := tv.Type.Underlying().(*types.Pointer); isPtr {
+				return true
+			}
+		}
+		switch x := e.(type) {
+		case *ast.ParenExpr:
+			e = x.X
+		case *ast.SelectorExpr:
+			if id, ok := x.X.(*ast.Ident); ok {
+				if _, isPkg := w.info.Uses[id].(*types.PkgName); isPkg {
+					return true // package-level variable of another package
+				}
+			}
+			e = x.X
+		case *ast.Ident:
+			obj := w.info.Uses[x]
+			if obj == nil {
+				obj = w.info.Defs[x]
+			}
+			if v, ok := obj.(*types.Var); ok && v.Parent() != nil && v.Parent() == v.Pkg().Scope() {
+				return true // package-level variable
+			}
+			return false
+		default:
+			return true // index, call result, dereference, ...: be conservative
+		}
+	}
+}
+
+// insideAnchoredValue: e denotes storage that is part of an anchored field holding a struct VALUE
+// (`sr.stats` in `sr.stats.ModeChanges`): the access is already recorded against the anchored field.
+func (w *walker) insideAnchoredValue(e ast.Expr) bool {
+	for {
+		switch x := e.(type) {
+		case *ast.ParenExpr:
+			e = x.X
+		case *ast.SelectorExpr:
+			if tv, ok := w.info.Types[x]; ok {
+				if _, isPtr := tv.Type.Underlying().(*types.Pointer); isPtr {
+					return false
+				}
+			}
+			if loc, _, ok := w.a.targetField(w.info, x); ok && isAnchoredLoc(loc) {
+				return true
+			}
+			e = x.X
+		default:
+			return false
+		}
+	}
+}
+
 func (w *walker) record(loc, kind string, sel *ast.SelectorExpr, ls lockset) {
+	if !isAnchoredLoc(loc) && (!w.sharedPath(sel.X) || w.insideAnchoredValue(sel.X)) {
+		return
+	}
 	owner := types.ExprString(sel.X)
 	ac := &access{Loc: loc, Kind: kind, Func: w.f.key, Pos: w.a.pos(sel.Pos()), Owner: owner,
 		HeldW: []string{}, HeldR: []string{}, Other: []string{}}
@@ -1148,10 +1218,34 @@ func (a *analyzer) assignRoles() {
 }
 
 func (a *analyzer) emit() {
-	var acc []*access
+	// keep: fields of the anchored structs, and any other library struct field that a background
+	// goroutine touches after construction (shared state the anchors do not name yet)
+	bgTouched := map[string]bool{}
 	for _, k := range a.order {
-		acc = append(acc, a.fns[k].accesses...)
+		for _, ac := range a.fns[k].accesses {
+			if ac.Ctor || isAnchoredLoc(ac.Loc) {
+				continue
+			}
+			for _, r := range ac.Roles {
+				if strings.HasPrefix(r, "bg:") {
+					bgTouched[ac.Loc] = true
+				}
+			}
+		}
 	}
+	acc := []*access{}
+	for _, k := range a.order {
+		for _, ac := range a.fns[k].accesses {
+			if isAnchoredLoc(ac.Loc) || bgTouched[ac.Loc] {
+				acc = append(acc, ac)
+			}
+		}
+	}
+	extra := []string{}
+	for l := range bgTouched {
+		extra = append(extra, l)
+	}
+	sort.Strings(extra)
 	var pvs []*pkgvar
 	for _, v := range a.pkgvars {
 		if v.Writes == nil {
@@ -1181,12 +1275,13 @@ func (a *analyzer) emit() {
 	}
 	sort.Strings(tnames)
 	out := map[string]interface{}{
-		"targets":     tnames,
-		"accesses":    acc,
-		"pkgvars":     pvs,
-		"goroutines":  a.gos,
-		"entry_locks": entries,
-		"functions":   len(a.order),
+		"targets":                      tnames,
+		"unanchored_background_fields": extra,
+		"accesses":                     acc,
+		"pkgvars":                      pvs,
+		"goroutines":                   a.gos,
+		"entry_locks":                  entries,
+		"functions":                    len(a.order),
 	}
 	enc := json.NewEncoder(os.Stdout)
 	enc.SetIndent("", " ")
